@@ -770,10 +770,12 @@ def history_dirs_existing(tier, seed):
 
 
 def model_view_of(res, ds):
+    """what the model computes for one case (for replay files): the shard's definitions + one Eval"""
+    shard = os.path.join(res["dir"], "cases_mig_%03d.v" % ds["shard"])
     f = os.path.join(res["dir"], "view_%d_%d.v" % (ds["shard"], ds["local"]))
-    open(f, "w").write("From VV.MIG Require Import Corr.\nRequire cases_mig_%03d.\nEval vm_compute in option_map model_view (nth_error cases_mig_%03d.cases %d).\n"
-                       % (ds["shard"], ds["shard"], ds["local"]))
-    rc, out, _ = vflib.sh(["timeout", "600", "coqc", "-noglob"] + vflib.q_flags("mig") + ["-Q", res["dir"], "Top", f], cwd=res["dir"], timeout=660)
+    body = [l for l in open(shard).read().split("\n") if not l.startswith("Eval ") and not l.startswith("Definition bad")]
+    open(f, "w").write("\n".join(body) + "\nEval vm_compute in option_map model_view (nth_error cases %d).\n" % ds["local"])
+    rc, out, _ = vflib.sh(["timeout", "600", "coqc", "-noglob"] + vflib.q_flags("mig") + [f], cwd=res["dir"], timeout=660)
     return out[-6000:]
 
 
